@@ -96,6 +96,77 @@ SIMS.update({
     "exh_st4": _exh("EXH_StunClient_st4.cfg", False, "st"),
     "exh_st5": _exh("EXH_StunClient_st5.cfg", False, "st"),
 })
+LT_SIMS = {
+    "lt_unrel": ("SIM_CredLT.cfg", {"reliable": False, "rto": 500000, "gran": 1000, "rm": 16, "rc": 7, "mech": "lt",
+                                    "preset": "none", "fp": False, "max_tx": 10, "timeout": 5000000}),
+    "lt_rel": ("SIM_CredLT_rel.cfg", {"reliable": True, "rto": 500000, "gran": 1000, "rm": 16, "rc": 7, "mech": "lt",
+                                      "preset": "none", "fp": False, "max_tx": 10, "timeout": 5000000}),
+}
+MBT_LT = {"C08": ["lt_unrel", "lt_rel"], "C13": ["lt_unrel"], "C17": ["lt_unrel"], "C05": ["lt_rel"]}
+
+
+def mbt_lt(name, tier, seed, wd, bindir):
+    """CredLT.tla behaviours (TLC simulation) replayed on the real long-term client; predictions
+    (result, event kinds except timer notifications, attribute types of every request) compared."""
+    cfg, dcfg = LT_SIMS[name]
+    want = 400 if tier == "quick" else 6000
+    r = tlc_model("MC_CredLT.tla", cfg, wd, workers=1, timeout=1500,
+                  simulate="num=%d" % (want // 8), extra="-depth 15 -seed %d" % (seed % 100000))
+    if r["violated"]:
+        raise ToolError("simulation of %s violates %s" % (cfg, r["violated"]))
+    seen, scheds = set(), []
+    for line in r["out"].splitlines():
+        line = line.strip()
+        if line.startswith('"SCHED ') and line not in seen:
+            seen.add(line)
+            scheds.append(json.loads(line)[len("SCHED "):])
+            if len(scheds) >= want:
+                break
+    if not scheds:
+        raise ToolError("TLC simulation exported no behaviour for " + cfg)
+    sf = os.path.join(wd, "mbt-%s.ndjson" % name)
+    with open(sf, "w") as f:
+        f.write("\n".join(scheds) + "\n")
+    out = os.path.join(wd, "rec-mbt-%s" % name)
+    sh("%s/drive-client mbtlt --sched %s --cfg '%s' --out %s" % (bindir, sf, json.dumps(dcfg), out), timeout=1800)
+    pred = {}
+    with open(os.path.join(out, "pred.ndjson")) as f:
+        for l in f:
+            o = json.loads(l)
+            pred[o["tr"]] = o["pred"]
+    steps = div = 0
+    first = []
+    cur, k = None, 0
+    with open(os.path.join(out, "trace.ndjson")) as f:
+        for l in f:
+            o = json.loads(l)
+            if o["op"] == "reset":
+                cur, k = o["tr"], 0
+                continue
+            ps = pred.get(cur, [])
+            if k < len(ps):
+                p = ps[k]
+                oev = sorted((e["k"], e.get("why") if e["k"] == "failed" else
+                              (e.get("cls") if e["k"] == "recvd" else "")) for e in o["ev"] if e["k"] != "rto")
+                pev = sorted(tuple(x) for x in p["evk"])
+                bad = p["res"] != o["res"] or pev != oev
+                if o["op"] == "send" and o["res"] == "ok":
+                    ot = [e["d"]["types"] for e in o["ev"] if e["k"] == "out"]
+                    bad = bad or not ot or ot[0] != p["types"]
+                steps += 1
+                if bad:
+                    div += 1
+                    if len(first) < 3:
+                        first.append({"tr": cur, "step": k, "op": o["op"], "predicted": p,
+                                      "observed": {"res": o["res"], "ev": oev}})
+            k += 1
+    if div:
+        log("[mbt] %s: %d of %d replayed steps diverge from the CredLT model's prediction (advisory): %s"
+            % (name, div, steps, json.dumps(first)[:600]))
+    return out, {"sim": name, "model": "CredLT.tla", "behaviours": len(scheds), "steps": steps,
+                 "conformance_divergences": div, "first_divergences": first}
+
+
 EXH = {"C05": (["exh_unrel4"], ["exh_unrel5", "exh_rel4", "exh_st5"]),
        "C06": (["exh_unrel4"], ["exh_unrel5", "exh_rel4"]),
        "C11": (["exh_unrel4"], ["exh_unrel5", "exh_rel4"]),
@@ -313,6 +384,10 @@ def run(prop, tier, seed, replay=None, extra_cov=None):
             ex = EXH.get(prop, ([], []))
             for name in MBT.get(prop, []) + ex[0] + (ex[1] if tier == "thorough" else []):
                 out, st = mbt(name, tier, seed, wd, bindir)
+                recs.append((out, st))
+                mbt_stats.append(st)
+            for name in MBT_LT.get(prop, []):
+                out, st = mbt_lt(name, tier, seed, wd, bindir)
                 recs.append((out, st))
                 mbt_stats.append(st)
     total_traces = total_lines = 0
